@@ -400,8 +400,15 @@ impl StaticMetadata {
             named_instances.clear();
         };
 
-        // Claim names for axes and named instances
-        let mut name_id_gen = 255;
+        // Claim names for axes and named instances, starting after the largest nameID the
+        // source already uses (like fonttools' _findUnusedNameID) so that a font-specific
+        // name supplied by the source is never handed out a second time.
+        let mut name_id_gen = names
+            .keys()
+            .map(|key| key.name_id.to_u16())
+            .max()
+            .unwrap_or(255)
+            .max(255);
         // Spec-reserved names (<= 255) are not allowed in the set of unique reusable strings,
         // with the exception of the default instance's subfamily name which can reuse the
         // existing nameID 2 or 17:
